@@ -42,7 +42,7 @@ Link ==
                                        /\ ~(/\ us[i].ms < 4500
                                             /\ Len(us[i].own.rating) >= 2 /\ us[i].usedRating = us[i].own.rating[2]
                                             /\ Len(us[i].own.abmf) >= 1 /\ us[i].usedAbmf = us[i].own.abmf[1])}}
-          \cup {V("C19", "request_fails_cleanly", [iface |-> Ev.iface, status |-> us[i].status]) : i \in {i \in ran : us[i].finished /\ us[i].status # 200}}
+          \cup {V("C19", "request_fails_cleanly", [iface |-> Ev.iface, status |-> us[i].status]) : i \in {i \in ran : us[i].finished /\ us[i].status # us[i].okStatus}}
   /\ div' = div
 \* two subscribers in flight at once, one of them with answers held for 2 s: every operation acts on answers to its own
 \* requests (the first sentence of C19 names no subscriber) and completes
